@@ -316,6 +316,13 @@ func vpH_C08_three__2(c int) {
 	vpRunLoop(in, w)
 	vpAssert(conn.closes >= 1, "C08.three.closed-at-end")
 	vpAssert(len(w.invokes) >= 2, "C08.three.scripted-packets-dispatched")
+	// C07: a third packet on the still open session whose number does not go beyond the last one
+	// seen (request 3, reply 4), or is even, is rejected: no handler, at most one more packet
+	if c == 0 && !w.finishSecond && p3.sid == sidA && (p3.seq <= 3 || p3.seq%2 == 0) {
+		vpReach("C07.three.rejected")
+		vpAssert(len(w.invokes) == 2, "C07.three.non-increasing-sequence-invokes-no-handler")
+		vpAssert(len(conn.out) <= 3, "C07.three.rejected-request-gets-at-most-one-packet")
+	}
 	vpReach("C08.three.end")
 }
 
